@@ -808,6 +808,16 @@ class World(object):
                     if first_error is None:
                         first_error = e
 
+            # Nothing may stay pending on the loop (e.g. the processes
+            # of the other simulators after one of them has failed).
+            leftover = asyncio.all_tasks(self.loop)
+            for task in leftover:
+                task.cancel()
+            if leftover:
+                self.loop.run_until_complete(
+                    asyncio.gather(*leftover, return_exceptions=True)
+                )
+
             self.loop.stop()
             self.loop.run_forever()
             self.loop.close()
